@@ -23,10 +23,20 @@ def txt(n):
     return " ".join(ast.unparse(n).split())
 
 
-def _is_pure(e):
+# names of properties (anywhere in the program) whose getter does more than hand out a field: reading one of them may compute, cache or refresh something,
+# so such a read is treated like a call with possible effects (filled in by Canon._index)
+EFFECT_ATTRS = set()
+
+
+def _is_pure(e, local_mutators_ok=False):
     if isinstance(e, ast.Lambda):
         return True
     for x in _walk_no_defs(e):
+        if local_mutators_ok and isinstance(x, ast.Call) and isinstance(x.func, ast.Attribute) and x.func.attr in MUTATORS and isinstance(x.func.value, ast.Name) \
+                and x.func.value.id not in ("self", "cls"):
+            continue  # `local.append(x)`: changes a local container, not the state of an object
+        if isinstance(x, ast.Attribute) and isinstance(x.ctx, ast.Load) and x.attr in EFFECT_ATTRS:
+            return False
         if isinstance(x, ast.Call):
             f = x.func
             if isinstance(f, ast.Name) and f.id in PURE_CALLS:
@@ -288,6 +298,7 @@ class Canon:
         self._cache = {}
         self._sig = {}
         self._inlined = {}
+        self._mentions = None
         self._all_done = False
         self._k = {}
 
@@ -307,6 +318,10 @@ class Canon:
         for f in self.p.all_functions():
             defs.setdefault(f.name, []).append(f)
         self._refs, self._defs = refs, defs
+        EFFECT_ATTRS.clear()
+        for f in self.p.all_functions():
+            if f.kind == "getter" and not _trivial_getter(f.node):
+                EFFECT_ATTRS.add(f.prop or f.name)
 
     def helper(self, f, call):
         """FuncInfo of the private single-use helper called by `call` inside `f`, or None"""
@@ -608,9 +623,17 @@ class Canon:
         if not name.startswith("_") or name.startswith("__") or len(self._defs.get(name, [])) != 1 or not (1 <= self._refs.get(name, 0) <= 6):
             return False
         # the call sites are counted while the functions that mention the name are canonicalised
-        for g in self.p.all_functions():
-            if g is not f and id(g) not in self._cache and any((isinstance(x, ast.Attribute) and x.attr == name) or (isinstance(x, ast.Name) and x.id == name) for x in ast.walk(g.node)):
-                self.fn(g)
+        if self._mentions is None:
+            self._mentions = {}
+            for g in self.p.all_functions():
+                for x in ast.walk(g.node):
+                    nm = x.attr if isinstance(x, ast.Attribute) else (x.id if isinstance(x, ast.Name) else None)
+                    if nm is not None and nm.startswith("_"):
+                        self._mentions.setdefault(nm, set()).add(id(g))
+            self._by_id = {id(g): g for g in self.p.all_functions()}
+        for gid in self._mentions.get(name, ()):
+            if gid != id(f) and gid not in self._cache:
+                self.fn(self._by_id[gid])
         return self._inlined.get(id(f), 0) == self._refs.get(name, 0)
 
     def src(self, f):
@@ -818,6 +841,24 @@ def _root_name(e):
     return e.id if isinstance(e, ast.Name) else None
 
 
+def _trivial_getter(fn):
+    """`return self._field` (possibly copied / wrapped by a pure numpy call): reading it has no effect"""
+    body = _strip_doc(fn.body)
+    if len(body) != 1 or not isinstance(body[0], ast.Return) or body[0].value is None:
+        return False
+    v = body[0].value
+    for x in ast.walk(v):
+        if isinstance(x, ast.Attribute) and not (isinstance(x.value, ast.Name) and x.value.id in ("self", "np") and (x.attr.startswith("_") or x.value.id == "np")) \
+                and not (isinstance(x.value, ast.Attribute) and x.attr in ("copy", "T", "shape", "size")):
+            return False
+        if isinstance(x, ast.Call):
+            f_ = x.func
+            ok = (isinstance(f_, ast.Attribute) and ((isinstance(f_.value, ast.Name) and f_.value.id == "np") or f_.attr == "copy")) or (isinstance(f_, ast.Name) and f_.id in PURE_CALLS)
+            if not ok:
+                return False
+    return True
+
+
 def _sans_local_mutators(e):
     """the expression with `local.append(x)` style calls replaced by their arguments (they change a local container, not the state of an object)"""
     class T(ast.NodeTransformer):
@@ -910,7 +951,7 @@ def _aliases(fn):
         if not isinstance(st, (ast.FunctionDef, ast.AsyncFunctionDef, ast.ClassDef)):
             heads = [st] if not any(isinstance(getattr(st, f_, None), list) and getattr(st, f_) and isinstance(getattr(st, f_)[0], ast.stmt) for f_ in ("body", "orelse", "finalbody")) \
                 else [x for x in (getattr(st, "test", None), getattr(st, "iter", None)) if x is not None] + [it.context_expr for it in getattr(st, "items", [])]
-            impure_at[order] = any(not _is_pure(_sans_local_mutators(h.value if isinstance(h, (ast.Assign, ast.Expr, ast.Return, ast.AugAssign)) and h.value is not None else h))
+            impure_at[order] = any(not _is_pure(h.value if isinstance(h, (ast.Assign, ast.Expr, ast.Return, ast.AugAssign)) and h.value is not None else h, True)
                                    for h in heads if not isinstance(h, (ast.Pass, ast.Break, ast.Continue)))
         for n in _own_nodes(st):
             if isinstance(n, ast.Name) and isinstance(n.ctx, ast.Load):
@@ -992,6 +1033,9 @@ def _aliases(fn):
             if bad:
                 continue
         reads = {txt(x) for x in ast.walk(v) if isinstance(x, (ast.Attribute, ast.Subscript))}
+        # getattr(obj, 'name'[, default]) reads obj.name
+        reads |= {"%s.%s" % (txt(x.args[0]), x.args[1].value) for x in ast.walk(v) if isinstance(x, ast.Call) and isinstance(x.func, ast.Name) and x.func.id == "getattr"
+                  and len(x.args) >= 2 and isinstance(x.args[1], ast.Constant) and isinstance(x.args[1].value, str)}
         hit = False
         for t, ss in text_stores.items():
             if (t in reads or any(r.startswith(t + ".") or r.startswith(t + "[") for r in reads)) and later(ss, order, loops):
